@@ -679,6 +679,67 @@ pub fn run_enumerated(ctx: &mut Ctx, bases: &[Base], weight: &dyn Fn(FieldKind) 
     }
     ctx.extra.insert("chain_cases".into(), serde_json::json!(idx));
     ctx.extra.insert("chain_length".into(), serde_json::json!(r));
+    // ---- amplification: a trak (or traf) whose count/length field claims more than the box holds
+    // is repeated k times in front of a large padding area. A decoder that follows such a field
+    // beyond the end of its own box - and only seeks back afterwards - reads the padding once per
+    // copy: bytes transferred and memory then grow with k * padding instead of with the file ----
+    ctx.stage("amplify");
+    let (k_copies, pad_len) = ctx.pick((200usize, 512usize << 10), (400usize, 1usize << 20));
+    let mut idx = 0u64;
+    for (bi, b) in bases.iter().enumerate() {
+        if !(b.name == "sink0" || b.name == "sink1" || b.name == "sinkfrag0") {
+            continue;
+        }
+        let mut flat: Vec<(Vec<&PBox>, &PBox)> = Vec::new();
+        fn collect2<'a>(boxes: &'a [PBox], anc: &mut Vec<&'a PBox>, out: &mut Vec<(Vec<&'a PBox>, &'a PBox)>) {
+            for pb in boxes {
+                out.push((anc.clone(), pb));
+                anc.push(pb);
+                collect2(&pb.children, anc, out);
+                anc.pop();
+            }
+        }
+        collect2(&b.boxes, &mut Vec::new(), &mut flat);
+        for (anc, t) in flat.iter().filter(|(_, t)| matches!(&t.typ[..], b"trak" | b"traf")) {
+            for f in b.fields.iter().filter(|f| f.off >= t.start && f.off < t.end() && matches!(f.kind, FieldKind::Count | FieldKind::Length) && weight(f.kind) != 0) {
+                for (pi, pattern) in [&[0u8][..], &[0x02, 0x00][..], &[0x00, 0x00, 0x02, 0x00][..], &[0xff][..], &[0x10, 0x10][..], &[0x00, 0x20][..]].iter().enumerate() {
+                    let my = idx;
+                    idx += 1;
+                    if !ctx.enter(my) {
+                        continue;
+                    }
+                    let vmax = if f.width >= 8 { u64::MAX } else { (1u64 << (8 * f.width)) - 1 };
+                    let mut unit = b.bytes[t.start..t.end()].to_vec();
+                    {
+                        let mut whole = b.bytes.clone();
+                        write_field(&mut whole, f, vmax);
+                        unit.copy_from_slice(&whole[t.start..t.end()]);
+                    }
+                    let mut out: Vec<u8> = Vec::with_capacity(b.bytes.len() + unit.len() * k_copies + pad_len + 16);
+                    out.extend_from_slice(&b.bytes[..t.start]);
+                    for _ in 0..k_copies {
+                        out.extend_from_slice(&unit);
+                    }
+                    out.extend_from_slice(&b.bytes[t.end()..]);
+                    let grow = (unit.len() * (k_copies - 1)) as u64;
+                    for a in anc.iter() {
+                        if a.header >= 16 {
+                            let cur = u64::from_be_bytes(out[a.start + 8..a.start + 16].try_into().unwrap());
+                            out[a.start + 8..a.start + 16].copy_from_slice(&(cur + grow).to_be_bytes());
+                        } else {
+                            let cur = u32::from_be_bytes(out[a.start..a.start + 4].try_into().unwrap()) as u64;
+                            out[a.start..a.start + 4].copy_from_slice(&((cur + grow).min(u32::MAX as u64) as u32).to_be_bytes());
+                        }
+                    }
+                    out.extend_from_slice(&((8 + pad_len) as u32).to_be_bytes());
+                    out.extend_from_slice(b"free");
+                    out.extend(pattern.iter().cycle().take(pad_len));
+                    each(ctx, &AdvCase { bytes: out, desc: format!("{}: {} x{} with {} := {:#x}, then {} KiB of padding (pattern {})", b.name, String::from_utf8_lossy(&t.typ), k_copies, fname(f), vmax, pad_len >> 10, pi), touched: vec![f.kind], base: bi, baseline: None });
+                }
+            }
+        }
+    }
+    ctx.extra.insert("amplify_cases".into(), serde_json::json!(idx));
     // ---- big tables: every table box in turn holds tens of thousands of entries in an ordered,
     // reversed, constant, alternating or scrambled pattern (work that is quadratic in a table's
     // length only shows at this scale; honest counts, so the size checks pass) ----
